@@ -2,7 +2,7 @@
 import itertools
 from .. import common as C, structs as S, clientgen as G
 
-LEAN_MODULES = ["ZvtVerif.Properties.C07"]
+LEAN_MODULES = ["ZvtVerif.Properties.C07", "ZvtVerif.Properties.Traffic"]
 TRANSLATED = {"structs", "sequences", "errors"}      # translated tables this property consumes (a translator problem elsewhere does not break its tie)
 ASSUMPTIONS = ["fault-free transport (faults: C09/C10); the simulated terminal answers from per-command FIFO tables",
                "the abstract specification tools/clientgen.py:Abs (token -> receipt map) is the oracle; requests are assembled by the independent reference encoder"]
